@@ -159,18 +159,39 @@ func (ss *sideSys) entails(e Lin) bool {
 	if len(e.T) == 0 {
 		return e.C >= 0
 	}
+	if len(e.T) == 1 {
+		// interval shortcut
+		if lo, ok := ss.st.quickLo(ss.st.Subst(e)); ok && lo >= 0 {
+			return true
+		}
+	}
 	return Entails(ss.cons, e, ss.st)
+}
+
+// impliedByStaticRange: a single-atom bound that the atom's type range already gives.
+func impliedByStaticRange(eng *Engine, c Lin) bool {
+	if len(c.T) != 1 {
+		return false
+	}
+	r := eng.atoms[c.T[0].A].rng
+	k := c.T[0].K
+	if k > 0 && r.HasLo {
+		// k*x + C >= 0 holds for all x >= Lo if k*Lo + C >= 0
+		if v, ok := mulOv(k, r.Lo); ok && v+c.C >= 0 {
+			return true
+		}
+	}
+	if k < 0 && r.HasHi {
+		if v, ok := mulOv(k, r.Hi); ok && v+c.C >= 0 {
+			return true
+		}
+	}
+	return false
 }
 
 // Join computes an upper bound of A and B. live tells which atoms matter after
 // the join (others are dropped). With widen set, only constraints of A that
 // hold in B are kept (no relaxation, no new relations).
-// ExtraThresholds: constants of the function being analysed (set by the fixpoint driver).
-var ExtraThresholds []int64
-
-// NoThresholds disables the threshold relaxation (set by the fixpoint driver after a few widening steps).
-var NoThresholds bool
-
 func Join(A, B *State, live func(Atom) bool, widen bool) *State {
 	if A == nil || A.dead {
 		if B == nil {
@@ -232,7 +253,7 @@ func Join(A, B *State, live func(Atom) bool, widen bool) *State {
 	}
 	// candidates
 	addCand := func(c Lin) {
-		if !c.Bad && len(c.T) > 0 && liveLin(c) {
+		if !c.Bad && len(c.T) > 0 && liveLin(c) && !impliedByStaticRange(eng, c) {
 			cands = append(cands, c)
 		}
 	}
@@ -359,9 +380,9 @@ func Join(A, B *State, live func(Atom) bool, widen bool) *State {
 		// thresholds: a single-atom bound that does not hold on both sides is
 		// replaced by the next threshold that does (in widening mode this is the
 		// only relaxation, which guarantees termination: the threshold set is finite)
-		if len(c.T) == 1 && (c.T[0].K == 1 || c.T[0].K == -1) && (!widen || okA) && !(widen && NoThresholds) {
+		if len(c.T) == 1 && (c.T[0].K == 1 || c.T[0].K == -1) && (!widen || okA) && !(widen && eng.noThresholds) {
 			done := false
-			for _, th := range mergedThresholds() {
+			for _, th := range eng.mergedThresholds() {
 				if th <= c.C {
 					continue
 				}
@@ -597,21 +618,18 @@ var thresholds = func() []int64 {
 	return out
 }()
 
-var mergedCache []int64
-var mergedFor *int64
-
-func mergedThresholds() []int64 {
-	if len(ExtraThresholds) == 0 {
+func (e *Engine) mergedThresholds() []int64 {
+	if len(e.extraThresholds) == 0 {
 		return thresholds
 	}
-	if mergedFor == &ExtraThresholds[0] {
-		return mergedCache
+	if e.mergedFor == &e.extraThresholds[0] {
+		return e.mergedCache
 	}
 	set := map[int64]bool{}
 	for _, t := range thresholds {
 		set[t] = true
 	}
-	for _, t := range ExtraThresholds {
+	for _, t := range e.extraThresholds {
 		set[t] = true
 	}
 	out := make([]int64, 0, len(set))
@@ -619,6 +637,6 @@ func mergedThresholds() []int64 {
 		out = append(out, v)
 	}
 	sort.Slice(out, func(i, j int) bool { return out[i] < out[j] })
-	mergedCache, mergedFor = out, &ExtraThresholds[0]
+	e.mergedCache, e.mergedFor = out, &e.extraThresholds[0]
 	return out
 }
